@@ -1263,6 +1263,12 @@ func (fi *FuncInfo) LoopBodyMustPass(header *ssa.BasicBlock, hit func(ssa.Instru
 		prev *st
 		via  string
 	}
+	// every iteration executes the header block itself
+	for _, in := range header.Instrs {
+		if hit(in) {
+			return GateResult{OK: true}
+		}
+	}
 	body := header.Succs[0]
 	seen := map[*ssa.BasicBlock]bool{body: true}
 	q := []*st{{b: body}}
